@@ -67,7 +67,8 @@ Proof.
   destruct (t =? 0); [inversion H; subst; auto|].
   destruct (Z.ltb_spec t min_time_wait); [inversion H; subst; auto|].
   destruct (valid E e) eqn:V; simpl in H; [|inversion H; subst; auto].
-  destruct (handle_of s e) eqn:Ho; inversion H; subst; clear H; [auto|].
+  destruct (handle_of s e) eqn:Ho; [inversion H; subst; auto|].
+  destruct (foreign E e); inversion H; subst; clear H; [auto|].
   pose proof (inv_len E s I e V).
   destruct (push_entry_spec E s e t I Ho H) as (I' & D).
   assert (Hno : forall d, ~ due s e d).
@@ -89,7 +90,7 @@ Proof.
   destruct (Z.ltb_spec t min_time_update); [inversion H; subst; auto|].
   destruct (valid E e) eqn:V; simpl in H; [|inversion H; subst; auto].
   pose proof (inv_len E s I e V) as Hl.
-  destruct (handle_of s e) as [hid|] eqn:Ho; inversion H; subst; clear H.
+  destruct (handle_of s e) as [hid|] eqn:Ho; [inversion H; subst; clear H|rename H into H1].
   - destruct (detach_spec E s e hid I Ho) as (I1 & N1 & D1).
     assert (Heq : push_entry (mkS (tombstone (heap s) hid) (ents s) (now s) (next_hid s)) e t =
                   push_entry (detach s e hid) e t).
@@ -103,7 +104,8 @@ Proof.
     + intros Hd. apply D in Hd. destruct Hd as [[-> ->]|Hd]; auto.
       apply D1 in Hd. auto.
     + intros [[-> ->]|[Hne Hd]]; apply D; auto. right. apply D1. auto.
-  - destruct (push_entry_spec E s e t I Ho Hl) as (I' & D).
+  - destruct (foreign E e); inversion H1; subst; [auto|].
+    destruct (push_entry_spec E s e t I Ho Hl) as (I' & D).
     split; auto. split; auto. right.
     split; auto. split; auto. split; auto.
     intros e' d. split.
@@ -122,7 +124,7 @@ Proof.
   - destruct (valid E e); simpl in H; inversion H; subst; clear H; auto.
     destruct (detach_spec E s e hid I Ho) as (I1 & N1 & D1).
     split; auto.
-  - inversion H; subst. split; auto. split; auto. right. split; auto.
+  - destruct (foreign E e); inversion H; subst; [auto|]. split; auto. split; auto. right. split; auto.
     intros e' d. split.
     + intros Hd. split; auto. intro. subst. apply (due_scheduled E s' e d I Hd). auto.
     + tauto.
